@@ -8,6 +8,9 @@ package main
 
 import (
 	"flag"
+	"fmt"
+	"os"
+	"path/filepath"
 
 	"verifharness/vutil"
 )
@@ -26,6 +29,11 @@ func main() {
 	if *work == "" {
 		vutil.Fatalf("-work is required")
 	}
+	// a private directory per driver process: sandboxes are never shared between runs
+	*work = filepath.Join(*work, fmt.Sprintf("%s-%d", *mode, os.Getpid()))
+	if err := os.MkdirAll(*work, 0o777); err != nil {
+		vutil.Fatalf("mkdir %s: %v", *work, err)
+	}
 	res := vutil.NewResult()
 	switch *mode {
 	case "write-replay":
@@ -39,5 +47,6 @@ func main() {
 	default:
 		vutil.Fatalf("unknown mode %q", *mode)
 	}
+	os.RemoveAll(*work)
 	res.Write(*out)
 }
